@@ -48,6 +48,8 @@ impl ReaderControl {
         let mut items = self.items.lock();
         let mut ret = Vec::with_capacity(items.len());
         ret.append(&mut items);
+        #[cfg(feature = "verif")]
+        crate::verif::sched::log(format!("r.take n={}", ret.len()));
         ret
     }
 
@@ -120,6 +122,8 @@ fn collect_item(
                     Ok(item) => {
                         let mut vec = items.lock();
                         vec.push(item);
+                        #[cfg(feature = "verif")]
+                        crate::verif::sched::log("rPush".to_string());
                     }
                     Err(_) => break,
                 },
@@ -127,7 +131,13 @@ fn collect_item(
             }
         }
 
+        #[cfg(feature = "verif")]
+        crate::verif::sched::point("rd.before_end");
+        #[cfg(feature = "verif")]
+        crate::verif::sched::log("rEnd".to_string());
         components_to_stop.fetch_sub(1, Ordering::SeqCst);
+        #[cfg(feature = "verif")]
+        crate::verif::sched::point("rd.after_end");
         debug!("reader: collect_item stop");
     });
 
